@@ -90,12 +90,17 @@ def set_prop(srv, prefix, cpath, prop, value):
     return pv[0] if pv else "noprop"
 
 
-def set_props(srv, prefix, cpath, pairs, separate):
-    """one PROPPATCH setting several properties, in the given order -> {prop: status}"""
+def set_props(srv, prefix, cpath, pairs, separate, refused_at=None):
+    """one PROPPATCH setting several properties, in the given order -> {prop: status}.
+    refused_at: position at which an instruction the server cannot carry out (setting the live property
+    DAV:getetag) is put among the others — what it acknowledges for the others still has to be what it did"""
+    els = [el_xml(p, v) for p, v in pairs]
+    if refused_at is not None:
+        els.insert(min(refused_at, len(els)), "<D:getetag>&quot;made-up&quot;</D:getetag>")
     if separate:
-        inner = "".join("<D:set><D:prop>%s</D:prop></D:set>" % el_xml(p, v) for p, v in pairs)
+        inner = "".join("<D:set><D:prop>%s</D:prop></D:set>" % e for e in els)
     else:
-        inner = "<D:set><D:prop>%s</D:prop></D:set>" % "".join(el_xml(p, v) for p, v in pairs)
+        inner = "<D:set><D:prop>%s</D:prop></D:set>" % "".join(els)
     body = ('<?xml version="1.0" encoding="utf-8"?><D:propertyupdate xmlns:D="DAV:">%s</D:propertyupdate>' % inner).encode("utf-8")
     r = srv.request("PROPPATCH", prefix.rstrip("/") + cpath + "/", {"Content-Type": "text/xml"}, body)
     if r.status != 207:
@@ -158,8 +163,12 @@ def http_part(chk, n_hist, length, unsafe=False):
                         pairs.append((p, v))
                     if chk.rng.random() < 0.5:
                         pairs.sort(key=lambda pv: "order" in pv[0])      # calendar-order last
-                    sts = set_props(srv, prefix, cpath, pairs, separate=chk.rng.random() < 0.4)
-                    history.append(["PROPPATCH*", cpath, [[p, v, sts[p]] for p, v in pairs]])
+                    refused_at = chk.rng.randint(0, len(pairs)) if chk.rng.random() < 0.4 else None
+                    sts = set_props(srv, prefix, cpath, pairs, separate=chk.rng.random() < 0.4, refused_at=refused_at)
+                    history.append(["PROPPATCH*", cpath, [[p, v, sts[p]] for p, v in pairs]] +
+                                   ([["with a refused instruction (set DAV:getetag) at position", refused_at]] if refused_at is not None else []))
+                    if refused_at is not None:
+                        chk.count("proppatch-multi-with-a-refused-instruction")
                     chk.count("proppatch-multi")
                     for p, v in pairs:
                         if sts[p] == "200":
